@@ -44,6 +44,50 @@ def _const_value(b):
     return None
 
 
+def _shape(b):
+    """name-independent fingerprint of a body: statement / terminator kinds, operators, constants, field indices and the
+    names of non-local callees, in block order"""
+    import hashlib
+    out = []
+
+    def operand(o):
+        if not isinstance(o, dict):
+            return "?"
+        if "const" in o:
+            c = o["const"]
+            return "c:%s:%s" % (c.get("ty"), c.get("val", c.get("fstr", c.get("str", ""))) if not c.get("fn") and not c.get("def") else "item")
+        pl = o.get("copy") or o.get("move")
+        if pl is None:
+            return "?"
+        return "p:" + ",".join(str(e.get("f", "x")) if isinstance(e, dict) else str(e) for e in pl["p"])
+    for bl in b["blocks"]:
+        if bl.get("cleanup"):
+            continue
+        for st in bl["stmts"]:
+            if st["k"] != "assign":
+                continue
+            rv = st["rv"]
+            item = [rv["k"], str(rv.get("op", rv.get("kind", rv.get("akind", ""))))]
+            for key in ("op", "a", "b"):
+                if isinstance(rv.get(key), dict):
+                    item.append(operand(rv[key]))
+            if rv["k"] == "agg":
+                item.append(str(len(rv.get("ops", []))))
+                item.append(str(rv.get("variant_idx", "")))
+            out.append("|".join(item))
+        t = bl["term"]
+        if t is None:
+            continue
+        if t["k"] == "call":
+            c = t.get("callee") or ""
+            out.append("call:%s:%d" % (c if not t.get("callee_local") else "local", len(t["args"])))
+        elif t["k"] == "switch":
+            out.append("switch:%s" % ",".join(str(v) for v, _ in t["targets"]))
+        else:
+            out.append(t["k"])
+    return hashlib.sha256("\n".join(out).encode()).hexdigest()[:16]
+
+
 def snapshot(data):
     fns, adts, consts = {}, {}, {}
     for b in data["bodies"]:
@@ -51,7 +95,7 @@ def snapshot(data):
             fns[b["id"]] = {
                 "kind": b["kind"], "impl_self": b.get("impl_self"), "impl_trait": b.get("impl_trait"),
                 "params": [b["locals"][i]["ty"] for i in range(1, b["arg_count"] + 1)],
-                "ret": b["locals"][0]["ty"], "callees": _callees(b), "nblocks": len(b["blocks"]),
+                "ret": b["locals"][0]["ty"], "callees": _callees(b), "nblocks": len(b["blocks"]), "shape": _shape(b),
             }
         elif b["kind"] in ("const", "static") and "{" not in b["id"]:
             consts[b["id"]] = {"kind": b["kind"], "ty": b["locals"][0]["ty"], "value": _const_value(b)}
@@ -135,6 +179,34 @@ def _jaccard(a, b):
 
 def _last(path):
     return path.rsplit("::", 1)[-1]
+
+
+_GEN = re.compile(r"::<([^<>]*(?:<[^<>]*>[^<>]*)*)>")
+
+
+def _generic_map(new_id, old_id):
+    """{new generic parameter name: reference name} read off the `::<A, B>` segments of two item paths ({} if none;
+    None if the arities differ).  Only plain identifiers are mapped (concrete type arguments must agree literally)."""
+    gn, go = _GEN.findall(new_id), _GEN.findall(old_id)
+    if len(gn) != len(go):
+        return None
+    out = {}
+    for a, b in zip(gn, go):
+        pa, pb = [x.strip() for x in a.split(",")], [x.strip() for x in b.split(",")]
+        if len(pa) != len(pb):
+            if a != b:
+                return None
+            continue
+        for x, y in zip(pa, pb):
+            if x != y and re.match(r"^[A-Za-z_]\w*$", x) and re.match(r"^[A-Za-z_]\w*$", y):
+                out[x] = y
+    return out
+
+
+def _apply_generics(s, gm):
+    if not gm or not isinstance(s, str):
+        return s
+    return re.sub(r"\b(%s)\b" % "|".join(re.escape(k) for k in gm), lambda m: gm[m.group(1)], s)
 
 
 # ------------------------------------------------------------------ alignment
@@ -222,6 +294,11 @@ def apply(data, ref=None):
             cmap[cands[0]] = m
     if cmap:
         data = _replace_paths(data, cmap)
+        # array lengths are printed with the bare constant name: `[isize; SCORES_SIZE]`
+        text = json.dumps(data)
+        for new_, old_ in cmap.items():
+            text = re.sub(r";\s*" + re.escape(_last(new_)) + r"\]", "; " + _last(old_) + "]", text)
+        data = json.loads(text)
         report["consts"] = dict(cmap)
     # D. functions
     cur = snapshot(data)
@@ -236,9 +313,14 @@ def apply(data, ref=None):
                 # a free function may have become a method or moved: tolerated only for identical signatures below
                 if (c["impl_trait"] or None) != (r["impl_trait"] or None):
                     continue
-            if c["params"] != r["params"] or c["ret"] != r["ret"]:
+            gm = _generic_map(n, m)
+            if gm is None:
                 continue
-            j = _jaccard(r["callees"], c["callees"])
+            if [_apply_generics(x, gm) for x in c["params"]] != r["params"] or _apply_generics(c["ret"], gm) != r["ret"]:
+                continue
+            j = _jaccard(r["callees"], [_apply_generics(x, gm) for x in c["callees"]])
+            if c.get("shape") and c.get("shape") == r.get("shape"):
+                j = max(j, 0.9) + 0.5          # identical bodies up to names
             same_name = _last(n) == _last(m)
             same_mod = n.rsplit("::", 1)[0] == m.rsplit("::", 1)[0]
             score = j + (1.0 if same_name else 0.0) + (0.25 if same_mod else 0.0)
